@@ -222,6 +222,25 @@ def check_mesh(ctx, name, mesh, fixed, with_model=True):
             fail("cov_hermitian_in_use", dict(update=k_, defect=r))
         ctx.case((name, "in_use", k_), nontrivial=k_ > 0)
 
+    # ... and when the caller keeps ONE array for the vector potential and overwrites it in place between updates
+    # (a preallocated work buffer; the field switched off at the end): at A = 0 the operators in use are the scalar
+    # ones -- Laplacian = divergence o gradient, constants annihilated, gradient exact on linear functions
+    buf = rng.normal(size=(E, 2)) * 1.5
+    mo.set_link_exponents(buf)
+    buf[:] = rng.normal(size=(E, 2)) * 0.7
+    mo.set_link_exponents(buf)
+    buf[:] = 0.0
+    mo.set_link_exponents(buf)
+    Lk = sp.csr_matrix(mo.psi_laplacian)
+    Gk = sp.csr_matrix(mo.psi_gradient)
+    scL = float(np.abs(Lmu).max())
+    r = max(relerr((Lk - sp.csr_matrix(D @ G)).toarray(), scL), relerr(Lk @ np.ones(n), scL),
+            relerr(Gk @ glin - ref, np.abs(ref).max() + 1e-300))
+    ctx.tol("operators in use at A = 0 after the caller's buffer was overwritten in place: scalar identities", r, 1e-9)
+    if r > 1e-9:
+        fail("in_use_after_buffer_overwritten_in_place", dict(defect=r))
+    ctx.case((name, "in_use_reused_buffer"), nontrivial=True)
+
     # terminal sites present but psi left free there (terminal_psi=None): every row of the covariant Laplacian is a
     # Laplacian row -- the operator in use is the very operator of the terminal-free mesh, Hermitian included
     if fixed is not None:
